@@ -21,6 +21,16 @@ func checkSpecs() map[string]CheckSpec {
 		{Func: "HC02_Swap", Domain: B, Covers: []string{"end"}},
 		{Func: "HC02_Collection", Domain: B, Covers: []string{"pushed", "rejected"}},
 	}, Explanation: "One inductive Push step from an arbitrary well-formed pre-state (shape symbolic inside the bounds) for Polygon, MultiLineString, MultiPoint, MultiPolygon, GeometryCollection; Reverse and Swap."})
+	add(CheckSpec{Property: "C03", Harnesses: []HarnessSpec{
+		{Func: "HC03_WKB", Domain: B, Covers: []string{"roundtrip", "refused"}},
+		{Func: "HC03_EWKB", Domain: B, Covers: []string{"roundtrip"}},
+		{Func: "HC03_Unsupported", Domain: B, Covers: []string{"end"}},
+		{Func: "HC03_WriteFails", Domain: B, Covers: []string{"complete", "failed"}},
+		{Func: "HC03_ReadSplit", Domain: B, Covers: []string{"end"}},
+		{Func: "HC03_Hex", Domain: B, Covers: []string{"end"}},
+		{Func: "HC03_SQL", Domain: B, Covers: []string{"scanned", "wrong-type"}},
+	}, Explanation: "wkb/ewkb Marshal compared byte for byte with an independent reference encoder written from the format documents, then decoded back; stream writers that fail after k bytes, readers that split arbitrarily; hex and database/sql wrappers.",
+		Outside: []string{"geometry trees deeper/wider than the bounds", "reader split patterns beyond the first 7 calls being chosen from {1,2,all} (later calls: 1 or all)"}})
 	add(CheckSpec{Property: "C04", Harnesses: []HarnessSpec{
 		{Func: "HC04_WKB", Domain: B, Covers: []string{"decoded", "error", "too-large"}},
 		{Func: "HC04_EWKB", Domain: B, Covers: []string{"decoded", "error", "too-large"}},
